@@ -727,3 +727,46 @@ func c19merge(c *Ctx, id string, rng *rand.Rand, bs []*model.Batch) {
 }
 
 var _ = oracle.NewReport
+
+// c18engineCancel closes the merge's channel inside the j-th engine call, for
+// every j of the uncancelled merge (the engine double's op hook runs at the
+// start of every engine operation).
+func c18engineCancel(c *Ctx, id string, p *c18plan, ins []segment.Segment, bm []*roaring.Bitmap, path string, rng *rand.Rand, counts map[string]int64) {
+	total := 0
+	faiss.SetOpHook(func(op string, n int) { total++ })
+	os.Remove(path)
+	_, _, err := zx.Merge(ins, bm, path, make(chan struct{}), nil)
+	faiss.SetOpHook(nil)
+	if err != nil {
+		c.R.Fail("merge-err", "%s: uncancelled merge (engine-call count): %v", id, err)
+		return
+	}
+	for j := 1; j <= total; j++ {
+		os.Remove(path)
+		ch := make(chan struct{})
+		seen := 0
+		var at string
+		faiss.SetOpHook(func(op string, n int) {
+			seen++
+			if seen == j {
+				at = op
+				close(ch)
+			}
+		})
+		var err error
+		tag := fmt.Sprintf("%s cancel@engine call %d/%d", id, j, total)
+		guard(c.R, tag, func() { _, _, err = zx.Merge(ins, bm, path, ch, nil) })
+		faiss.SetOpHook(nil)
+		out := c18outcome(c, tag+" ("+at+")", p, path, err, rng)
+		counts["engine_"+out]++
+		counts["phase_engine_call"]++
+		engineQuiescentKeepInputs(c, tag)
+		if out == "bad" {
+			return
+		}
+	}
+}
+
+// engineQuiescentKeepInputs: like engineQuiescent; the (unsearched, in-memory)
+// inputs hold no native index, so anything alive was leaked by the merge.
+func engineQuiescentKeepInputs(c *Ctx, tag string) { engineQuiescent(c, tag) }
